@@ -50,6 +50,25 @@ TOK = lambda c: "(%s || (%s)=='+' || (%s)=='-' || (%s)=='.' || (%s)=='e' || (%s)
 DELIM = lambda c: "((%s)=='+' || (%s)=='-' || (%s)=='.' || (%s)=='<' || (%s)=='>' || (%s)=='=' || (%s)==' ')" % ((c,) * 7)
 
 
+def scan_inv(loop):
+    """invariants of the three digit-scanning loops of LPFreadValue (s walks the line, pos stays; g_w bounds the token)"""
+    inv = [
+        IN("s"),
+        "g_off <= %s && %s <= g_off + g_w" % (S_OFF, S_OFF),
+        "(v_c0=='+' || v_c0=='-') ==> %s >= g_off + 1" % S_OFF,
+        "(%s > g_off) ==> s[-1] > ' '" % S_OFF,          # the last token character is no white space (one dereference only)
+        "(g_off + g_k < %s) ==> %s" % (S_OFF, TOK("v_k")),
+    ]
+    cas = "((v_c0=='+' || v_c0=='-') ? v_c1 : v_c0)"
+    if loop == 0:
+        inv.append("!has_digits ==> %s == g_off + ((v_c0=='+' || v_c0=='-') ? 1 : 0)" % S_OFF)
+    else:
+        inv.append("%s ==> has_digits" % DIG(cas))
+    if loop == 1:
+        inv.append("!has_digits ==> %s <= g_off + 2" % S_OFF)      # sign and dot at most
+    return inv
+
+
 STRCHR_LIT_UNWIND = [{"function": "strchr", "loop": 0}]
 
 instances = []
@@ -180,7 +199,7 @@ instances.append({
 })
 
 # ---- LPFreadValue -------------------------------------------------------------------------------------------------------
-TOKCAP = 40
+TOKCAP = 16
 
 
 def read_value(name, tokcap, extra_defs, tier, desc_extra):
@@ -190,13 +209,20 @@ def read_value(name, tokcap, extra_defs, tier, desc_extra):
         "defines": dict({"INST_readValue": "", "TOKCAP": str(tokcap)}, **extra_defs),
         "harness": "h_readValue", "enforce": "w_readValue",
         "slices": COMMON + [S_readValue],
+        "loops": [
+            {"function": "LPFreadValue", "loop": 0, "locals": ["s", "has_digits"], "invariants": scan_inv(0),
+             "assigns": ["s", "has_digits"], "decreases": "g_len - %s" % S_OFF},
+            {"function": "LPFreadValue", "loop": 1, "locals": ["s", "has_digits"], "invariants": scan_inv(1),
+             "assigns": ["s", "has_digits"], "decreases": "g_len - %s" % S_OFF},
+            {"function": "LPFreadValue", "loop": 2, "locals": ["s", "has_digits", "has_emptyexponent"], "invariants": scan_inv(2),
+             "assigns": ["s", "has_emptyexponent"], "decreases": "g_len - %s" % S_OFF},
+        ],
         # The copy loop `for(t = tmp; pos != s; pos++) *t++ = *pos;` WRITES through a pointer it advances; a loop contract would havoc
-        # that pointer and every write through it becomes a case split over all objects (does not fit in memory).  All four loops run
-        # at most once per token character and the token is shorter than TOKCAP (precondition, ghost witness g_w), so they are
-        # unwound completely (with unwinding assertions); no pointer is havoc'd and every access resolves to the line or to tmp.
+        # that pointer and every write through it becomes a case split over all objects (does not fit in memory).  It runs once per
+        # token character and the token is shorter than TOKCAP (precondition, ghost witness g_w), so it is unwound completely
+        # (with unwinding assertion).
         "unwind": tokcap + 1,
-        "unwind_loops": [{"function": "LPFreadValue", "loop": 0}, {"function": "LPFreadValue", "loop": 1},
-                         {"function": "LPFreadValue", "loop": 2}, {"function": "LPFreadValue", "loop": 3}],
+        "unwind_loops": [{"function": "LPFreadValue", "loop": 3}],
         "min_obligations": 100,
         "tier": tier,
         "mutants": [
